@@ -45,6 +45,7 @@ type MCase struct {
 	M     MInst   `json:"m"`
 	Steps []MStep `json:"steps"`
 	Panic int     `json:"panic"` // source whose teardown panics (0 = none)
+	Tail  string  `json:"tail"`  // downstream stage placed after the operator: "" / "none", "Take1", "Throw1"
 	Sync  int     `json:"sync"`  // source that ends synchronously inside its subscription (0 = none)
 	Raw   string  `json:"-"`
 }
@@ -181,6 +182,17 @@ func BuildMultiOp(g string, rest []ro.Observable[any]) (func(ro.Observable[any])
 	return nil, false
 }
 
+// withTail places an early-terminating downstream stage after the operator (MultiDef!TailCut).
+func withTail(o ro.Observable[any], tail string) ro.Observable[any] {
+	switch tail {
+	case "Take1":
+		return ro.Take[any](1)(o)
+	case "Throw1":
+		return ro.MapErr(func(v any) (any, error) { return nil, cat.ErrCb })(o)
+	}
+	return o
+}
+
 func init() {
 	cat.ExtraCanon = func(v any) (string, bool) {
 		switch x := v.(type) {
@@ -261,6 +273,7 @@ func replayMulti(idx int, c *MCase, mode string, out *[]Mismatch) {
 		add(0, "catalogue", err.Error())
 		return
 	}
+	o = withTail(o, c.Tail)
 	for i := range ctls {
 		if s, _ := ctls[i].counts(); s != 0 {
 			add(0, "sub", fmt.Sprintf("source %d subscribed at construction time", i+1))
